@@ -50,9 +50,14 @@ func (c *ContextCond) Signal() {
 	c.m.RLock()
 	select {
 	case c.ch <- struct{}{}:
+		c.m.RUnlock()
 	default:
+		c.m.RUnlock()
+		// An earlier signal is still undelivered, so its waiter has not reached the select in
+		// Wait yet and there may be others like it. The channel cannot hold a second signal;
+		// rather than drop this one, wake everybody (a spurious wakeup is harmless).
+		c.Broadcast()
 	}
-	c.m.RUnlock()
 }
 
 // Wait is equivalent to sync.Cond.Wait, except it accepts a context.Context. If the context expires
